@@ -410,4 +410,4 @@ PROP = Prop(
                  "row order of the result is not claimed, rows are matched by label"],
 )
 
-RULE_EXTRA = ('group values that differ only by Unicode normal form, case or padding, and the empty string; a row index named like one of the columns; unused columns with missing values (NaN / None) in some rows; group columns held by the frame in reversed order; uint8 / float32 score columns.')
+RULE_EXTRA = ('group values that differ only by Unicode normal form, case or padding, and the empty string; a row index named like one of the columns; unused columns with missing values (NaN / None) in some rows; group columns held by the frame in reversed order; uint8 / float32 score columns. Interval-valued metrics (tpr_ci, fnr_ci, ...); adjacent 64-bit ids beyond 2^53 as labels.')
